@@ -1304,7 +1304,8 @@ class KeySignature(object):
       raise KeyParseError(
           'Could not find fifths attribute in key signature.')
     self.key = int(self.xml_key.find('fifths').text)
-    mode = self.xml_key.find('mode')
+    xml_mode = self.xml_key.find('mode')
+    mode = xml_mode.text if xml_mode is not None else None
     # Anything not minor will be interpreted as major
     if mode != 'minor':
       mode = 'major'
